@@ -205,7 +205,12 @@ def run(ctx):
                     o = utils.UtriangleQsparse(*Rc, *bc); Xo = qx.from_comps(*[qx.real_from_np(c) for c in o])
             except Exception as e:
                 viol(f'C16:trisolve:{inp["kind"]}:raises', f'triangular solve raised {e!r} ({k} right-hand side(s))', inp); continue
-            res = qx.maxabs(qx.sub(qx.mm(Tk, Xo), Bm)); scale = max(1, qx.maxabs(Bm))
+            Rm = qx.sub(qx.mm(Tk, Xo), Bm)
+            # row-wise relative residual: every equation is solved relative to ITS right-hand side
+            res = Fraction(0); scale = 1
+            for i in range(n):
+                ri = max(abs(c) for q in Rm[i] for c in q.t()); bi = max([abs(c) for q in Bm[i] for c in q.t()] + [abs(c) * max(abs(cc) for xr in Xo for qq in xr for cc in qq.t()) for q in Tk[i] for c in q.t()])
+                if bi > 0: res = max(res, Fraction(ri) / Fraction(bi))
             # the eps-regularised inverse of the component form has relative defect eps / |t_ii|^2 per row
             allowed = Fraction(1, 10 ** 9) if kind < 2 else max(Fraction(1, 10 ** 9), max(Fraction(EPS) / T[i][i].n2() for i in range(n)) * 4 * n * n)
             if res > allowed * scale:
